@@ -6,6 +6,7 @@ from vmon.refs import merkle as RM, pmt as RP, blockser as RB, txser as RT, p2p 
 from vmon.gen import blockgen as G
 
 PROPERTY = "C14"
+PRELOAD_NETWORK_ORDERS = [["btc", "xtn", "ltc", "bch", "grs", "doge", "dash", "btg"], ["btg", "grs", "bch", "doge", "ltc", "xtn", "btc"]]
 LEVEL = "exploration"
 TECHNIQUE = ("differential runtime monitor vs independent block/merkle/partial-merkle-tree references; exhaustive match subsets "
              "of small trees and exhaustive single-position proof corruptions")
